@@ -10,7 +10,8 @@ PROPS = 'Srctools.Props.C13'
 RULE = ("a case = (directory|single-file archive, history of <= 25 operations open(r/w/a, dir_data_limit)+__enter__/new_file/add_file/"
         "FileInfo.write/del/write_dirfile/__exit__(normal|exception)/contains/check, on real temp folders). Sizes from {0,1,15,16,17,1023,1024,1025,65535,"
         "65536,307207} plus random 0..2100, limits {None,0,16,1024}, archive indexes {None,0,1,7}, names from an ASCII+surrogateescape "
-        "pool with empty folder/name/extension parts in the three spellings (and unnormalised folder spellings), CRC-32-colliding "
+        "pool with empty folder/name/extension parts and parts of every boundary length 0,1,2,15..17,31..33,63..65,127..129,191..193,255..257,"
+        "1023..1025 (each part alone x each spelling, and combined; payload sizes at the same boundaries) in the three spellings (and unnormalised folder spellings), CRC-32-colliding "
         "overwrites and non-empty payloads with CRC 0, rejected non-ASCII names. Systematic grids: every (single, limit, index, size) "
         "written, flushed, reopened r, reopened a, overwritten, reopened; every (single, limit, index, size in {12,17,1025,65548}) overwritten with "
         "same-length same-CRC-32 data (fixed colliding 12-byte pair embedded in equal buffers, and forged collisions) before and after a reopen. After every open and at random points the observation "
@@ -192,6 +193,73 @@ def region_cases(rng):
                         yield {'single': single, 'ops': ops}
 
 
+LENGTHS = [0, 1, 2, 15, 16, 17, 31, 32, 33, 63, 64, 65, 127, 128, 129, 191, 192, 193, 255, 256, 257, 1023, 1024, 1025]
+
+
+def _part(rng, kind, n):
+    """a name part of exactly n characters (ASCII, no NUL, not ' ', no '.', normalised folder path)"""
+    if n == 0:
+        return ''
+    alpha = 'abcdefghijklmnopqrstuvwxyzABCDEFGHIJKLMNOPQRSTUVWXYZ0123456789_-'
+    chars = [rng.choice(alpha) for _ in range(n)]
+    if kind == 'dir' and n > 2:
+        # a folder path: components of random length separated by '/', never empty / '.' / '..' components
+        i = rng.randrange(1, 40)
+        while i < n - 1:
+            chars[i] = '/'
+            i += rng.randrange(2, 60)
+    if rng.random() < 0.2:
+        chars[rng.randrange(n)] = rng.choice(['\udc80', '\udcff', '~', '!'])
+        if kind == 'dir' and n > 2:
+            pass
+    return ''.join(chars)
+
+
+def name_length_cases(rng):
+    """every boundary length for every name part (extension, folder path, file name) alone in each spelling, and
+    combined; written, saved (write_dirfile or leaving the with block), reopened r and a, looked up in all spellings."""
+    def hist(t, kd, single=False):
+        nm = U.spell(kd, *t)
+        other = U.spell('t', 'a', 'short', 'e')
+        return {'single': single, 'ops': [
+            ['open', 'w', rng.choice(U.LIMITS)], ['add', nm, ['g', rng.randrange(1000), rng.choice([0, 5, 40])], rng.choice(U.INDEXES)],
+            ['add', other, ['g', 1, 9], None], ['check'], rng.choice([['flush'], ['exit', False]]),
+            ['open', 'r', None], ['check'], ['has', nm],
+            ['open', 'a', 16], ['write', nm, ['g', 7, 30], None], ['new', U.spell('t', t[0], 'sibling', t[2])], ['flush'],
+            ['open', 'r', None], ['check']]}
+    for n in LENGTHS:
+        for kind in ('ext', 'dir', 'name'):
+            d, f, e = 'a', 'n', 'e'
+            if kind == 'ext':
+                e = _part(rng, kind, n)
+            elif kind == 'dir':
+                d = _part(rng, kind, n)
+            else:
+                f = _part(rng, kind, n)
+                if n == 0:
+                    e = 'e'
+            t = (d, f, e)
+            if U.in_class(*t) and U.spellable(*t):
+                for kd in 'spt':
+                    yield hist(t, kd, single=rng.random() < 0.3)
+    for _ in range(40):
+        t = (_part(rng, 'dir', rng.choice(LENGTHS[9:21])), _part(rng, 'name', rng.choice(LENGTHS[9:21])), _part(rng, 'ext', rng.choice(LENGTHS[9:21])))
+        if U.in_class(*t) and U.spellable(*t):
+            yield hist(t, rng.choice('spt'), single=rng.random() < 0.3)
+
+
+def size_length_cases(rng):
+    """payload sizes at the same boundaries, around each preload limit, in every placement"""
+    for n in LENGTHS:
+        for single, limit, idx in ((False, 16, None), (False, 0, 1), (False, None, 0), (True, 1024, None), (False, rng.choice([n, max(n - 1, 0), n + 1]), rng.choice(U.INDEXES))):
+            f, g = U.spell('s', 'a', 'n', 'e'), U.spell('p', '', 'm', 'txt')
+            yield {'single': single, 'ops': [
+                ['open', 'w', limit], ['add', f, ['g', rng.randrange(1000), n], idx], ['add', g, ['g', rng.randrange(1000), n + 1], idx], ['check'],
+                rng.choice([['flush'], ['exit', False]]), ['open', 'a', limit], ['check'],
+                ['write', g, ['g', rng.randrange(1000), n], idx], ['write', f, ['g', rng.randrange(1000), max(n - 1, 0)], idx], ['check'], ['flush'],
+                ['open', 'r', None], ['check']]}
+
+
 def _nontrivial(case):
     stores = any(o[0] in ('add', 'write', 'new') for o in case['ops'])
     reopens = sum(1 for o in case['ops'] if o[0] == 'open') >= 2
@@ -211,6 +279,13 @@ def _all_cases(ctx):
     sess = list(session_cases(rng))
     ctx.count('with-block sessions (mode x existing/missing x body x ending)', len(sess))
     cases += sess
+    nml = list(name_length_cases(rng))
+    ctx.count('name-part length boundary histories (ext/folder/name x 24 lengths x spelling)', len(nml))
+    ctx.extra['_name_range'] = (len(cases), len(cases) + len(nml))
+    cases += nml
+    szl = list(size_length_cases(rng))
+    ctx.count('payload size boundary histories', len(szl))
+    cases += szl
     reg = list(region_cases(rng))
     ctx.count('same-region overwrite histories (first/middle/last x shorter/equal/longer x reopen)', len(reg))
     cases += reg
@@ -230,7 +305,7 @@ def _tally(ctx, case):
             ctx.count(f'limit {o[2]}')
         if o[0] in ('add', 'write'):
             n = len(U.data_of(o[2]))
-            ctx.count('size ' + (str(n) if n in U.SIZES else '1..2100 random'))
+            ctx.count('size ' + (str(n) if n in U.SIZES else 'length boundary (2..1025)' if (n in LENGTHS or n - 1 in LENGTHS or n + 1 in LENGTHS) else 'other'))
             ctx.count(f'index {o[3]}')
             if o[2][0] == 'x':
                 ctx.count('payload with forged CRC')
@@ -311,13 +386,16 @@ def correspond(ctx, drivers):
     # independent decode of produced directory files + damaged copies
     dirs = []
     seen = set()
-    for r in res:
+    lo, hi = ctx.extra.pop('_name_range', (0, 0))
+    first = []
+    for n, r in enumerate(res):
         for d in r['dirs']:
             if len(d) <= 65536 + 4096 and d not in seen:
                 seen.add(d)
-                dirs.append(d)
+                (first if lo <= n < hi else dirs).append(d)
     rng.shuffle(dirs)
-    dirs = dirs[:ctx.budget(400, 4000)]
+    ctx.count('decode: directory files with boundary-length names (all decoded)', len(first))
+    dirs = first + dirs[:ctx.budget(400, 4000)]
     blobs = []
     for d in dirs:
         blobs.append(('produced', d))
